@@ -279,7 +279,7 @@ pub fn run(env: &mut Env) -> RunResult {
     let n = b5.len() as u64;
     env.run_enum(SUB_C5, n, true, move |i| b5[i as usize].clone())?;
     env.note(format!("exhaustive part: every composition x 3 modes for {} of {} v3 and {} of {} v5 short streams (length <= {})", u3, n3, u5, n5, max_len));
-    let n = env.tier.sel(2_500, 40_000);
+    let n = env.tier.sel(20_000, 250_000);
     env.run_tapes(SUB_R3, n, 260)?;
     env.run_tapes(SUB_R5, n * 2, 360)?;
     for s in ["c05.random.v3", "c05.random.v5"] {
